@@ -175,6 +175,8 @@ class World(object):
         self.halt = False
         self.pending_owner = []
         self.shadowing = any(getattr(o, 'wants_shadow', False) for o in self.oracles)
+        # the aliasing oracle cannot know whether a failed write already swapped the buffer
+        self.strict_abandon = any(getattr(o, 'prop', None) == 'C20' for o in self.oracles) or not self.oracles
 
     # ------------------------------------------------------------------ bookkeeping
     def new_cid(self):
@@ -489,11 +491,20 @@ class World(object):
         # an aborted or rejected in-place operation leaves its destination in a state no
         # property describes: abandon it (DESIGN 3.4 F2/F3)
         if st.outcome != 'ok' and st.dest is not None and not st.expect_reject:
-            if self.slots[st.dest].alive:
-                self.kill(st.dest)
-                self.bump('abandoned_dest')
-            self.slots[st.dest].tainted = True
-            self.caller_forgets(self.slots[st.dest].obj)
+            fmt_in_flight = st.op['op'] in ('resize', 'sort_inplace', 'store_cont') or st.store is None
+            if self.strict_abandon or fmt_in_flight:
+                if self.slots[st.dest].alive:
+                    self.kill(st.dest)
+                    self.bump('abandoned_dest')
+                self.slots[st.dest].tainted = True
+                self.caller_forgets(self.slots[st.dest].obj)
+            else:
+                # a failed value write leaves the format alone and the codes either old or new, both
+                # well-formed: outside the aliasing profile the object stays in play, and its next
+                # write is judged from the flags it is observed to have now (DESIGN 5.2, F3)
+                self.bump('failed_write_dest_kept')
+                if st.kind != 'indexed':
+                    self.fresh_buffer(st.dest)
         self.log.append(self.log_entry(st))
         return st
 
@@ -862,7 +873,12 @@ class World(object):
             # not its exact value (stale integer value type flooring it: C16's subject) would make
             # the library compute with other numbers than the model
             try:
-                got = np.asarray(o.get_val(), dtype=float).ravel().tolist()
+                gv = np.asarray(o.get_val())
+                if gv.dtype.kind == 'u':
+                    # read back as unsigned machine integers: the repr method would subtract them
+                    # modulo 2**64 (C07/C19's subject), and under wrap the stored code cannot tell
+                    return None
+                got = np.asarray(gv, dtype=float).ravel().tolist()
                 if len(got) != len(vals) or any(Fraction(g) != v for g, v in zip(got, vals)):
                     return None
             except Exception:
